@@ -248,6 +248,24 @@ case("copy-in / copy-out of an updated helper parameter works on the variable it
 case("copy-in / copy-out kept: the function has a try statement", {"m": _CIO + "    def f(self, d):\n        i = 0\n        while True:\n            try:\n                i = self._w(d, i)\n            except ValueError:\n                self.c(i)\n            if i is None:\n                return\n"},
      "m", "f", has=["_i1_i"])
 
+case("a literal store overwritten before any read is dropped", {"m": "def f(g):\n    v = None\n    g()\n    a, v = g()\n    return v\n"}, "m", "f", lacks=["v = None"])
+case("overwritten store kept: a statement in between reads it", {"m": "def f(g):\n    v = None\n    g(v)\n    a, v = g()\n    return v\n"}, "m", "f", has=["v = None"])
+case("overwritten store kept: the overwrite is conditional", {"m": "def f(g, c):\n    v = None\n    if c:\n        v = g()\n    return v\n"}, "m", "f", has=["None"])
+case("for-else value-or-None: the test after the loop moves into the else-block", {"m": "class A(object):\n    def _s(self, ks, r):\n        for k in ks:\n            c, m = r(k)\n            if c == 1:\n                return bytes(m)\n        return None\n    def f(self, ks, r, o):\n        m = self._s(ks, r)\n        if m is None:\n            m = o()\n        return (True, m)\n"},
+     "m", "f", has=["for ", "o()"], lacks=["is None"])
+
+case("tail web: an assignment whose readers are the leaving statements right after it gets its own name", {"m": "def f(g, c):\n    a, v = g()\n    if c:\n        v = a\n        return (True, v)\n    return (False, v)\n"}, "m", "f", has=["return (True, a)"])
+case("tail web kept: the value is captured by a closure", {"m": "def f(g, c):\n    a, v = g()\n    if c:\n        v = a\n        return (lambda: v)\n    return (False, v)\n"}, "m", "f", has=["v = a"])
+
+# -- COPYIN --------------------------------------------------------------------------------------------------------------------------------------
+_CI = "class A(object):\n    def _h(self, ks, a, r):\n        for k in ks:\n            if a != 1:\n                raise ValueError(a)\n            c, a = r(k)\n            if c == 2:\n                return a\n        return None\n"
+case("copy-in: the helper's updated parameter works on the caller's variable, which is dead after the call", {"m": _CI + "    def f(self, ks, r):\n        c, a = r(0)\n        m = self._h(ks, a, r)\n        return (True, m)\n"},
+     "m", "f", has=["if a != 1"], lacks=["_i1_a"])
+case("copy-in kept: the caller reads its variable after the call", {"m": _CI + "    def f(self, ks, r):\n        c, a = r(0)\n        m = self._h(ks, a, r)\n        return (a, m)\n"},
+     "m", "f", has=["_i1_a"])
+case("copy-in kept: the call sits in a loop that reads the variable", {"m": _CI + "    def f(self, ks, r, g):\n        c, a = r(0)\n        while g(a):\n            m = self._h(ks, a, r)\n        return (True, m)\n"},
+     "m", "f", has=["_i1_a"])
+
 
 def main():
     bad = 0
